@@ -28,7 +28,7 @@ claimed=set(checks)
 for pid,reason in extra.get("not_applicable",[]): na.append((pid,reason))
 m = {
  "version": 1,
- "setup_cmd": "cd /verif && ./check build",
+ "setup_cmd": "cd /verif && ./check build && ./check modeltest",
  "hooks": {
   "guard": "verif",
   "enable": "go test -c -tags verif -overlay <generated>: sim/cmd/rewrite instruments server/rib/client from /repo's working tree into /verif/.build (nothing under /repo is modified); the only files in /repo are the add-only accessors rib/verif_access.go and server/verif_access.go behind //go:build verif",
